@@ -113,7 +113,16 @@ Definition indexes_ready (g : utree) (o : sexp) : option string :=
       if negb (Nat.eqb (length bits) (length expected)) then Some "number of bitsets differs from the number of branches"
       else if negb (forallb (fun p => fst (fst p) && nat_set_eqb (snd (fst p)) (snd p)) (combine bits expected))
       then Some "a branch bitset is missing or is not the set of tips below the branch"
-      else None
+      else match (x <- get "ntips" o ;; dec_list (dec_pair dec_nat dec_nat) x) with
+           | None => Some "tip counts of the branches missing"
+           | Some nts =>
+             let total := length sorted in
+             if Nat.eqb (length nts) (length expected) &&
+                forallb (fun p => Nat.eqb (fst (fst p)) (length (snd p)) &&
+                                  Nat.eqb (snd (fst p)) (total - length (snd p))) (combine nts expected)
+             then None
+             else Some "NumTipsRight/NumTipsLeft of a branch are not the numbers of tips on its two sides (stale index)"
+           end
   | _, _, _ => Some "index observation missing"
   end.
 
@@ -223,6 +232,16 @@ Definition judge_gen (gen : string) (n : nat) (rooted : bool) (names : list stri
       then VCorr "rand.Float64 transcription (Model/Rand2.v) disagrees with math/rand"
       else
       let ls := map (fun f => nth (fpos f) exptab nilv) fs in
+      (* the oracle first: whatever the model says, a returned tree that violates the property is
+         reported as such, with this case as the failing input *)
+      let early : option string :=
+          if String.eqb gpanic "" && String.eqb gerr "" && valid_size gen n rooted then
+            match get_tree "tree" o with
+            | Some g => oracle_tree gen n rooted names g o
+            | None => None
+            end
+          else None in
+      match early with Some msg => VOracle msg | None =>
       match run_model gen n rooted names cs ls with
       | None => VBad "unknown generator"
       | Some m =>
@@ -262,7 +281,7 @@ Definition judge_gen (gen : string) (n : nat) (rooted : bool) (names : list stri
                       end
                end
         end
-      end
+      end end
     end
   | _, _, _, _, _ => VBad "undecodable observation"
   end.
@@ -272,6 +291,14 @@ Definition judge_topologies (n : nat) (rooted : bool) (names : list string) (o :
   | Some gerr, Some gpanic =>
     if negb (String.eqb gpanic "") then VOracle ("crash instead of a result or an error: " ++ gpanic)
     else
+    let early : option string :=
+        if String.eqb gerr "" && valid_size "topologies" n rooted && (Nat.eqb (length names) 0 || Nat.eqb (length names) n) then
+          match (x <- get "trees" o ;; dec_list dec_utree x) with
+          | Some gs => oracle_topologies n rooted names gs o
+          | None => None
+          end
+        else None in
+    match early with Some msg => VOracle msg | None =>
     match all_topologies n rooted names with
     | Err msg =>
       if negb (String.eqb gerr msg) then VCorr ("model error: " ++ msg ++ " / implementation: " ++ gerr)
@@ -290,7 +317,7 @@ Definition judge_topologies (n : nat) (rooted : bool) (names : list string) (o :
                   | None => VOk true (if rooted then "topologies:rooted" else "topologies:unrooted")
                   end
            end
-    end
+    end end
   | _, _ => VBad "undecodable observation"
   end.
 
@@ -312,11 +339,34 @@ Definition judge_randlib (c o : sexp) : verdict :=
   | _, _, _, _, _ => VBad "undecodable randlib case"
   end.
 
+(** k goroutines generating at once: every returned tree must still be a valid tree *)
+Definition judge_concurrent (c o : sexp) : verdict :=
+  match get_string "which" c, get_nat "n" c, get_bool "rooted" c,
+        (x <- get "trees" o ;; dec_list dec_utree x), get_strings "audits" o, get_strings "panics" o, get_strings "errs" o with
+  | Some which, Some n, Some rooted, Some gs, Some audits, Some panics, Some errs =>
+    let exp := ssort (if String.eqb which "topologies" then map (fun k => tip_name (S k)) (seq 0 n)
+                      else expected_names which n []) in
+    let okshape g := if String.eqb which "star" then star g
+                     else if String.eqb which "topologies" then (if rooted then planted g else binary false g)
+                     else binary rooted g in
+    match panics, errs, audits with
+    | p :: _, _, _ => VOracle ("crash while several goroutines generate trees: " ++ p)
+    | _, e :: _, _ => VOracle ("error while several goroutines generate trees: " ++ e)
+    | _, _, a :: _ => VOracle ("structural audit of a tree generated concurrently: " ++ a)
+    | [], [], [] =>
+      if forallb (fun g => wf g && sset_eqb (ssort (leaves g)) exp && okshape g) gs
+      then VOk true ("concurrent:" ++ which)
+      else VOracle "a tree generated while other goroutines generate trees is not a valid tree on the requested tips"
+    end
+  | _, _, _, _, _, _, _ => VBad "undecodable concurrent case"
+  end.
+
 Definition judge (c o : sexp) : verdict :=
   match get_string "gen" c, get_nat "n" c, get_bool "rooted" c with
   | Some gen, Some n, Some rooted =>
     let names := match get_strings "names" c with Some l => l | None => [] end in
     if String.eqb gen "randlib" then judge_randlib c o
+    else if String.eqb gen "concurrent" then judge_concurrent c o
     else if String.eqb gen "topologies" then judge_topologies n rooted names o
     else judge_gen gen n rooted names o
   | _, _, _ => VBad "undecodable case"
